@@ -48,6 +48,7 @@ func TestFindings(t *testing.T) {
 		{"D19-overflow-wrap-space-after-overfull-character", c11In{Para: Para{F: 8, WS: "normal", Align: "left", LH: "2", OW: "anywhere", Nodes: []Node{tx("ij "), sp(Node{FS: 24}, tx("stuvwx ")), tx("yz abcd")}}, Widths: []int{16}}},
 		{"D14b-overflow-wrap-nonpositive-width-start-spacing", c11In{Para: Para{F: 8, WS: "normal", Align: "left", LH: "1", OW: "anywhere", Nodes: []Node{tx("v w xy "), sp(Node{ML: 16, MR: 8}, tx("z ab cdefg"))}}, Widths: []int{8}}},
 		{"D16b-end-spacing-charged-to-overflow-wrap-fragment", c11In{Para: Para{F: 10, WS: "normal", Align: "left", LH: "1", OW: "anywhere", Nodes: []Node{sp(Node{PR: 12, FS: 8}, tx("rstu vwxyz")), tx(" a")}}, Widths: []int{40}}},
+		{"D20-nowrap-broken-after-box-with-collapsed-trailing-space", c11In{Para: P(10, "nowrap", "left", sp(Node{}, sp(Node{}, tx("t ")), tx(" ")), tx("uvw")), Widths: []int{20}}},
 		{"G1-gotext-preserved-newline-ignored", c11In{Mode: "split", Engine: "gotext", Text: &TextIn{Text: "pqru xab\ndeghiknq ruw", Family: "Ahem", Size: 16, WS: "pre", LineStart: true}, Widths: []int{8, 400}}},
 		{"G3-gotext-space-before-atomic-has-no-width", c11In{Engine: "gotext", Para: P(8, "normal", "right", tx("gh i "), ib(4, 8), tx(" j")), Widths: []int{200}}},
 	}
